@@ -62,12 +62,16 @@ RULES = {
     "`<x>.tofile(<f>)`, `<f>` is the file parameter itself - never a layer below it (`file.raw`, `getattr(file, 'raw', file)`, "
     "`file.buffer`, a descriptor): numpy flushes, tells and seeks the object it gets, so below a BufferedWriter it skips the pending "
     "bytes and writes at the descriptor's offset instead of the file's position - a header written just before ends up after the tensor",
+    "R18": "the unpacking kernels read their input in logical order whatever its shape: each `unpack_*` function of the type-casting "
+    "module flattens the packed array it is given (`data = data.reshape(-1)` / ravel() / flatten()) before the first strided store into "
+    "the result (`result[0::2] = data & 0x0F`) - a PackedTensor accepts a packed array of any shape, and a two-dimensional one does "
+    "not broadcast into the one-dimensional result, so numpy() raises where tobytes() answers",
     "R15": "every array that a Tensor stores has been given its ml_dtypes view: in Tensor.__init__ the statement that turns a numpy "
     "scalar (or another array-like) into an array (`value = np.array(value)` / `np.asarray`) comes before the statement that applies "
     "`_maybe_view_np_array_with_ml_dtypes` - as an alternative arm of it (`elif isinstance(value, np.generic)`) or after it, the "
     "0-d array keeps its carrier type (uint16 / uint8 / int8) and numpy() returns bit patterns instead of bfloat16 / float8 / int4 values",
 }
-FLOORS = {"R1": 120, "R2": 4, "R3": 8, "R4": 1, "R5": 6, "R6": 20, "R7": 30, "R8": 4, "R9": 2, "R10": 1, "R11": 1, "R12": 3, "R13": 1, "R14": 8, "R15": 1, "R16": 12, "R17": 4}
+FLOORS = {"R1": 120, "R2": 4, "R3": 8, "R4": 1, "R5": 6, "R6": 20, "R7": 30, "R8": 4, "R9": 2, "R10": 1, "R11": 1, "R12": 3, "R13": 1, "R14": 8, "R15": 1, "R16": 12, "R17": 4, "R18": 2}
 EXPLANATION = (
     "Evaluates the enum and table literals of _enums/_core/tensor_adapters with ast only and compares them with "
     "each other; derives the sub-byte classes from _BITWIDTH_MAP and checks every storage guard, packing-helper "
@@ -1333,7 +1337,35 @@ def rule_r17(ctx):
     ctx.require(n >= 4, f"only {n} tofile() calls found in the tofile methods of the tensor classes")
 
 
+def rule_r18(ctx):
+    m = ctx.repo.module("onnx_ir._type_casting")
+    n = 0
+    for f in m.functions.values():
+        if not f.name.startswith("unpack") or isinstance(f.node, ast.Lambda) or not f.params:
+            continue
+        data = f.params[0]
+        body = f.node.body
+        first_store = next((i for i, st in enumerate(body) if any(isinstance(a, ast.Assign) and any(
+            isinstance(t, ast.Subscript) and isinstance(t.slice, ast.Slice) and t.slice.step is not None for t in a.targets) for a in ast.walk(st))), None)
+        if first_store is None:
+            continue
+        n += 1
+        flat = any(isinstance(st, ast.Assign) and any(isinstance(t, ast.Name) and t.id == data for t in st.targets) and isinstance(st.value, ast.Call)
+                   and isinstance(st.value.func, ast.Attribute) and norm(st.value.func.value) == data
+                   and (st.value.func.attr in ("ravel", "flatten") or (st.value.func.attr == "reshape" and st.value.args and norm(st.value.args[0]) in ("-1", "(-1,)", "[-1]")))
+                   for st in body[:first_store])
+        # an intermediate computed from data before the stores is flattened when data is
+        ctx.check("R18", f"{f.local}: `{data}` is flattened before the strided stores", flat, f, body[first_store],
+                  f"`{norm(body[first_store])[:60]}` stores an expression over `{data}` into a strided slice of the one-dimensional result without `{data}` having been "
+                  "flattened: a packed array with more than one dimension (which PackedTensor accepts) does not broadcast into it, so numpy() raises ValueError for a "
+                  "tensor whose tobytes() works - the representations disagree",
+                  how="a rebinding `data = data.reshape(-1)` / ravel() / flatten() precedes the first `result[k::n] = …` in every unpack_* kernel",
+                  construct=f"{f.name} stores an unflattened array")
+    ctx.require(n >= 2, f"only {n} unpacking kernels with strided stores found")
+
+
 def run(ctx):
+    rule_r18(ctx)
     rule_r17(ctx)
     rule_r16(ctx)
     rule_r15(ctx)
